@@ -759,7 +759,16 @@ fn c16_keys_sequence(leg: &mut Leg, seed: u64) {
                 }
             };
             // (1) first key period of a fresh process: cookies forged under keys anybody can guess
-            for (kname, key) in [("all-zero-8", vec![0u8; 8]), ("all-ones-8", vec![0xffu8; 8]), ("empty", vec![]), ("all-zero-32", vec![0u8; 32])] {
+            // (all-zero, all-ones, empty; every key that is one octet repeated -- 256 keys of 8 and 256 of 32 octets, what a
+            // generator gives that fills the key from a single random octet; counting octets)
+            let mut guessable: Vec<(String, Vec<u8>)> = vec![("all-zero-8".into(), vec![0u8; 8]), ("all-ones-8".into(), vec![0xffu8; 8]), ("empty".into(), vec![]), ("all-zero-32".into(), vec![0u8; 32])];
+            for b in 1..=254u8 {
+                guessable.push(("one-octet-repeated-8".into(), vec![b; 8]));
+                guessable.push(("one-octet-repeated-32".into(), vec![b; 32]));
+            }
+            guessable.push(("counting-8".into(), (0u8..8).collect()));
+            guessable.push(("counting-from-1-8".into(), (1u8..9).collect()));
+            for (kname, key) in guessable {
                 if let Some((msg, _)) = build(cc.clone(), a, srv) {
                     let mut full = cc.clone();
                     full.extend_from_slice(&ev::cookie_make(&msg, &cc, &key));
